@@ -19,7 +19,9 @@ import numpy as np
 from qiskit import QuantumCircuit
 from qiskit.quantum_info import Operator
 
+import dissipation_common as dc
 import implbase as ib
+import layers_common as lyc
 import lottery_common as lc
 from lottery_common import MPS, NoiseModel, diss_mod, sp_mod
 
@@ -34,6 +36,12 @@ def gen(rng, tier):
     for i in range(n):
         sub = rng.randrange(1 << 30)
         r = i % 11
+        # extension (Model.Dissipation): the dissipation sweep itself and the whole noisy pipeline
+        # (sub-seeds derived from `sub`, so that the inputs of the older kinds are the same as before the extension)
+        sub2 = (sub * 2654435761 + 40503) % (1 << 30)
+        yield {"kind": "dissip", "sub": sub2, "flavour": i % 12}
+        if i % 2 == 0:
+            yield {"kind": "dpipe", "sub": (sub2 * 40503 + 17) % (1 << 30), "flavour": (i // 2) % 12}
         if r < 4:
             yield {"kind": "dtrace", "sub": sub}
         elif r < 8:
@@ -288,13 +296,253 @@ def run_dtree(inp):
             "meta": {"spec": [(n, q, round(t, 4)) for n, q, t in spec], "procs": [(d["name"], d["sites"], d["strength"]) for d in dicts]}}
 
 
+# =============================================================================================== extension: Model.Dissipation
+# ----------------------------------------------------------------------------------------------- dissipation sweep (trace + oracle)
+def _custom_matrix(nprng):
+    return nprng.normal(size=(2, 2)) + 1j * nprng.normal(size=(2, 2))
+
+
+def diss_process_dicts(rng, L, flavour):
+    """process lists for the sweep: the whole library in random order with zero / non-zero strengths mixed, plus custom one-site
+    matrices; flavours force the corners (last site, long-range Pauli pairs, all zero, non-Pauli long-range, duplicates)"""
+    nprng = np.random.default_rng(rng.randrange(1 << 30))
+    m = rng.choice([1, 2, 3, 4, 5, 6, 8])
+    dicts = lc.random_process_dicts(rng, L, m=m, zero_p=0.25, dup_p=0.1, gmin=0.01, gmax=0.9)
+    if flavour in (1, 7):     # processes on the last site: one-site Pauli and non-Pauli, and pairs ending there
+        dicts.append({"name": rng.choice(["pauli_x", "pauli_z"]), "sites": [L - 1], "strength": rng.uniform(0.05, 0.9)})
+        dicts.append({"name": rng.choice(["lowering", "raising"]), "sites": [L - 1], "strength": rng.uniform(0.05, 0.9)})
+        if L >= 2:
+            dicts.append({"name": rng.choice(lc.LIB2 + lc.PAULI2), "sites": [L - 2, L - 1], "strength": rng.uniform(0.05, 0.9)})
+    if flavour in (2, 8) and L >= 3:     # long-range Pauli pairs, both orientations
+        for _ in range(2):
+            a = rng.randrange(L - 2)
+            b = rng.randrange(a + 2, L)
+            dicts.append({"name": rng.choice(lc.PAULI2), "sites": rng.choice([[a, b], [b, a]]), "strength": rng.choice([0.0, rng.uniform(0.05, 0.9)])})
+    if flavour in (3, 9):     # custom one-site matrices (non-Pauli, non-diagonal L†L)
+        for _ in range(2):
+            dicts.append({"name": "custom", "sites": [rng.randrange(L)], "strength": rng.uniform(0.05, 0.5), "matrix": _custom_matrix(nprng)})
+    if flavour == 4:          # zero strengths mixed in front of and behind non-zero ones
+        dicts = [dict(d, strength=0.0) if k % 2 == 0 else d for k, d in enumerate(dicts)]
+        dicts.append({"name": "lowering", "sites": [rng.randrange(L)], "strength": rng.uniform(0.05, 0.5)})
+        dicts.insert(0, {"name": "pauli_y", "sites": [rng.randrange(L)], "strength": 0.0})
+    if flavour == 5:          # all zero: early return
+        dicts = [dict(d, strength=0.0) for d in dicts]
+    if flavour == 6 and L >= 3:   # non-Pauli long-range pair: NotImplementedError, possibly after other operations
+        a = rng.randrange(L - 2)
+        b = rng.randrange(a + 2, L)
+        low = np.array([[0, 1], [0, 0]], dtype=complex)
+        dicts.insert(rng.randrange(len(dicts) + 1), {"name": "custom_lr", "sites": [a, b], "strength": rng.uniform(0.05, 0.5), "factors": (low, low)})
+    if flavour in (0, 10):
+        rng.shuffle(dicts)
+    return dicts
+
+
+def run_dissip(inp):
+    rng = random.Random(inp["sub"])
+    flavour = int(inp.get("flavour", 0))
+    L = int(inp.get("L", rng.choice([1, 2, 3, 3, 4, 4, 5])))
+    dt = float(inp.get("dt", rng.choice([1.0, 0.5, 0.1, rng.uniform(0.01, 1.0), rng.uniform(0.01, 1.0)])))
+    if "procs" in inp:
+        dicts = [dict(p) for p in inp["procs"]]
+    else:
+        dicts = diss_process_dicts(rng, L, flavour)
+    none_model = bool(inp.get("none", flavour == 11 and "procs" not in inp))
+    nm = None if none_model else NoiseModel(dicts)
+    procs = [] if nm is None else nm.processes
+    if "basis" in inp:
+        state, skind = MPS(L, state="basis", basis_string=inp["basis"]), "basis"
+    else:
+        state, skind = lc.random_mps(rng, L)
+    spar = lc.strong_params(L, get_state=False)
+    psi = lc.to_be(state.to_vec(), L)
+    events, ops, tproblems, raised = dc.trace_apply_dissipation(state, nm, dt, spar)
+    impl = " ".join(events) if events else "-"
+    req = f"dissnone {L} {ib.frac(dt)}" if nm is None else f"diss {L} {ib.frac(dt)} | {lc.procs_req(procs)}"
+    early = nm is None or all(p["strength"] == 0 for p in procs)
+    napp = sum(1 for o in ops if o[0] in ("s", "e1", "e2"))
+    nzero = sum(1 for p in procs if p["strength"] == 0)
+    has = lambda f: int(any(f(p) for p in procs))  # noqa: E731
+    sig = (f"dissip:{L}:{len(procs)}:{napp}:{int(early)}:{int(raised)}:z{min(nzero, 3)}:"
+           f"lr{has(lambda p: len(p['sites']) == 2 and abs(p['sites'][1] - p['sites'][0]) > 1)}"
+           f"np{has(lambda p: not diss_mod.is_pauli(p))}last{has(lambda p: max(p['sites']) == L - 1)}")
+    # ---- direct oracle on the dense vector (model-independent)
+    oracle = None
+    edge = False
+    after = lc.to_be(state.to_vec(), L)
+    dom = all(lc.in_domain(p, L) for p in procs)
+    problems = list(tproblems)
+    if raised:
+        if dom:
+            problems.append("apply_dissipation raised NotImplementedError on a list of one-site / adjacent / Pauli-pair processes")
+        oracle = {"ok": not problems, "detail": "; ".join(problems[:3]) or "raises on a non-Pauli long-range pair (outside the property's process kinds)"}
+    elif not np.all(np.isfinite(after)):
+        oracle = {"ok": False, "detail": "non-finite state after apply_dissipation"}
+    elif dom:
+        if early:
+            n0 = float(np.linalg.norm(psi))
+            dev = abs(abs(np.vdot(psi / n0, after)) - 1) + abs(np.linalg.norm(after) - 1)
+            how = "early-return"
+            want_desc = "the normalised input state (QR centre shifts only)"
+        else:
+            ref, how = dc.reference_after(psi, procs, L, dt)
+            dev = float(np.max(np.abs(after - ref)))
+            want_desc = ("exp(-dt/2 * sum_k gamma_k L_k^dag L_k) psi" if how == "commuting"
+                         else "the product of exp(-dt/2 gamma_k L_k^dag L_k) in sweep order applied to psi")
+            edge = lc.schmidt_edge(ref, L, lo=1e-13) or lc.schmidt_edge(psi, L, lo=1e-13)
+        lc.DEV["dissip-dense(tol 1e-9)"] = max(lc.DEV.get("dissip-dense(tol 1e-9)", 0.0), 0.0 if edge else dev)
+        if not edge:
+            if dev > 1e-9:
+                problems.append(f"dense state after apply_dissipation(dt={dt!r}) differs from {want_desc} by {dev:.3e} "
+                                f"(processes {[(p['name'], list(p['sites']), float(p['strength'])) for p in procs]})")
+            oracle = {"ok": not problems, "detail": "; ".join(problems[:3]) or f"{how}: max deviation {dev:.2e}, {napp} process operations"}
+        elif problems:
+            oracle = {"ok": False, "detail": "; ".join(problems[:3])}
+    return {"req": req, "impl": impl, "edge": False, "kind": "dissip", "nontrivial": napp >= 2 or raised, "sig": sig, "oracle": oracle,
+            "meta": {"procs": [(p["name"], list(p["sites"]), float(p["strength"])) for p in procs], "dt": dt, "state": skind}}
+
+
+# ----------------------------------------------------------------------------------------------- whole noisy pipeline (trace)
+def run_dpipe(inp):
+    rng = random.Random(inp["sub"])
+    flavour = int(inp.get("flavour", 0))
+    spec = lyc.random_circuit(rng, nmin=2, nmax=5, max_ops=rng.choice([4, 8, 12]), p_marker=0.25, p_label=0.4,
+                              init=rng.choice(["zeros", "x+", "Neel", "wall"]))
+    nq = spec["n"]
+    ops = [op for op in spec["ops"]]
+    while not lyc.ascii_labels(ops):
+        ops = [op for op in ops if op["op"] != "b"]
+    spec = dict(spec, ops=ops)
+    mode = rng.choice(["sp", "sp", "ss"])
+    noise = rng.choice(["noisy", "noisy", "noisy", "noisy", "zero", "none"]) if flavour % 4 else "noisy"
+    dicts = lc.random_process_dicts(rng, nq, m=rng.choice([1, 2, 3, 4, 6, 8]), zero_p=0.3, gmin=0.01, gmax=0.3, dup_p=0.05)
+    if noise == "zero":
+        dicts = [dict(d, strength=0.0) for d in dicts]
+    nm = None if noise == "none" else NoiseModel(dicts)
+    qc = lyc.build_circuit(spec)
+    tags = lyc.tag_table(spec["ops"])
+    n_sb = sum(1 for op in spec["ops"] if op["op"] == "b" and lyc.label_padded(op.get("label")))
+    num_mid = n_sb + (rng.choice([0, 0, 1, 2]) if mode == "ss" else rng.choice([0, 3]))
+    obs = [lc.Observable(lc.Z(), i) for i in range(nq)]
+    spar = lc.StrongSimParams(obs, num_traj=1, max_bond_dim=4096, threshold=0.0, get_state=False, show_progress=False,
+                              sample_layers=(mode == "ss"), num_mid_measurements=num_mid)
+    state = MPS(nq, state=spec["init"])
+    events = []
+    tracer = dc.DissTracer()
+    tracer.events = events
+    o1, o2, od, os_, on, oe = (dj.apply_single_qubit_gate, dj.apply_two_qubit_gate, dj.apply_dissipation, dj.stochastic_process,
+                               MPS.normalize, MPS.evaluate_observables)
+
+    def s1(st, node):
+        events.append(f"a1:{tags.get(lyc.gate_key(node.op.name, node.op.params), 999999)}:{node.qargs[0]._index}")
+        return o1(st, node)
+
+    def s2(st, node, sp):
+        events.append(f"a2:{tags.get(lyc.gate_key(node.op.name, node.op.params), 999999)}:{node.qargs[0]._index}:{node.qargs[1]._index}")
+        return o2(st, node, sp)
+
+    def sd(st, noise_model, dt, sim_params):
+        if dt != 1:
+            events.append(f"dt={ib.frac(dt)}")
+        tracer.call(od, st, noise_model, dt, sim_params)
+
+    def ss(st, noise_model, dt, sim_params, rng=None):
+        events.append(f"S:{ib.frac(dt)}:{lc.sigs(noise_model.processes)}")
+        return os_(st, noise_model, dt, sim_params, rng)
+
+    def sn(self, form="B", decomposition="QR"):
+        if decomposition == "QR" and tracer.depth == 0:
+            events.append("N")
+        return on(self, form, decomposition)
+
+    def se(self, sp, results, column_index=0):
+        events.append(f"e{int(column_index)}")
+        return oe(self, sp, results, column_index)
+
+    real_rng = np.random.default_rng(rng.randrange(1 << 30))
+    exc = None
+    tracer.install()
+    dj.apply_single_qubit_gate, dj.apply_two_qubit_gate, dj.apply_dissipation, dj.stochastic_process = s1, s2, sd, ss
+    MPS.normalize, MPS.evaluate_observables = sn, se
+    try:
+        with lc.patched_default_rng(lambda: real_rng):
+            dj.digital_tjm((0, state, nm, spar, qc))
+    except Exception as e:  # noqa: BLE001
+        exc = f"{type(e).__name__}: {e}"[:200]
+        events.append("exc=" + type(e).__name__)
+    finally:
+        dj.apply_single_qubit_gate, dj.apply_two_qubit_gate, dj.apply_dissipation, dj.stochastic_process = o1, o2, od, os_
+        MPS.normalize, MPS.evaluate_observables = on, oe
+        tracer.uninstall()
+    impl = " ".join(events) if events else "-"
+    instr = " ; ".join(lyc.op_tokens(op, tags) for op in spec["ops"])
+    if nm is None:
+        req = f"pipenone {nq} {mode} {num_mid} | {instr}"
+    else:
+        req = f"pipe {nq} {mode} {num_mid} | {lc.procs_req(nm.processes)} | {instr}"
+    # direct oracle (model-independent): between two gate applications a noisy run has noise operations only after a two-qubit
+    # gate — there exactly one lottery, with dt = 1, on processes sited on the gate's qubits — and none after a one-qubit gate
+    probs = list(tracer.problems)
+    if exc:
+        probs.append(f"digital_tjm raised {exc}")
+    noisy = nm is not None and any(p["strength"] != 0 for p in nm.processes)
+    blocks, cur = [], None
+    for e in events:
+        if e.startswith(("a1:", "a2:")):
+            cur = [e, []]
+            blocks.append(cur)
+        elif cur is not None and not e.startswith("e") and e != "N" and not e.startswith("exc="):
+            cur[1].append(e)
+    n2 = 0
+    for g, body in blocks:
+        lots = [x for x in body if x.startswith("S:")]
+        if g.startswith("a1:"):
+            if body:
+                probs.append(f"noise operations {body[:2]} after the one-qubit gate {g}")
+            continue
+        n2 += 1
+        if not noisy:
+            if body:
+                probs.append(f"noise operations {body[:2]} in a noise-free run")
+            continue
+        a, b = sorted(int(x) for x in g.split(":")[2:4])
+        want = [p for p in nm.processes if list(p["sites"]) in ([a, b], [a], [b])]
+        if len(lots) != 1 or body[-1] != lots[0]:
+            probs.append(f"after {g}: {len(lots)} jump lotteries (expected one, after the dissipation sweep)")
+        elif lots[0] != f"S:1:{lc.sigs(want)}":
+            probs.append(f"after {g} the lottery got {lots[0]}, processes on those qubits at dt=1 are S:1:{lc.sigs(want)}")
+        touched, napps = set(), 0
+        for x in body:
+            w = x.split()
+            if w[0] in ("s", "x1", "x2"):
+                napps += 1
+                touched |= {int(t) for t in w[1:(3 if w[0] == "x2" else 2)] if t.isdigit()}
+        if not touched <= {a, b}:
+            probs.append(f"after {g} the dissipation sweep acted on tensors {sorted(touched)}, the gate's qubits are {a},{b}")
+        if napps != (len(want) if any(p["strength"] != 0 for p in want) else 0):
+            probs.append(f"after {g} the dissipation sweep applied {napps} process operations, {len(want)} processes sit on the gate's qubits")
+        if any(x.startswith("dt=") for x in body):
+            probs.append(f"after {g}: dissipation with {[x for x in body if x.startswith('dt=')][0]}")
+    return {"req": req, "impl": impl, "edge": False, "kind": "dpipe", "nontrivial": n2 >= 1 and noisy,
+            "sig": f"dpipe:{noise}:{mode}:{nq}:{n2}:{len(blocks)}:{min(len(events), 60)}",
+            "oracle": {"ok": not probs, "detail": "; ".join(probs[:3]) or f"{len(events)} events, {n2} two-qubit gates, {len(blocks)} gates"}}
+
+
 def run(inp):
     k = str(inp["kind"])
     while k.startswith(("corpus:", "replay:")):  # a replayed corpus case carries both prefixes
         k = k.split(":", 1)[1]
     inp = dict(inp, kind=k)
+    if k == "dissip":
+        return run_dissip(inp)
+    if k == "dpipe":
+        return run_dpipe(inp)
     if k == "dtrace":
-        return run_dtrace(inp)
+        try:
+            return run_dtrace(inp)
+        except Exception as e:  # noqa: BLE001  (added with the extension: an exception of the real digital_tjm on a random noisy
+            # nearest-neighbour circuit is an observation about the code, not a harness failure)
+            return {"req": None, "impl": None, "edge": False, "kind": "dtrace", "nontrivial": True, "sig": "dtrace:raise",
+                    "oracle": {"ok": False, "detail": f"digital_tjm raised {type(e).__name__}: {e}"[:300]}}
     if k in ("dvalue", "explicit"):
         return run_dvalue(inp)
     if k == "dtree":
@@ -314,8 +562,12 @@ if __name__ == "__main__":
             rule="distinct (kind, mode/state family, #qubits, #two-qubit gates, #processes, #events or #leaves) signatures",
             trusted_base=["qiskit Operator of a one-instruction circuit as the exact gate (little-endian, = MPS.to_vec order)",
                           "dense numpy/scipy reference (kron embedding, Lindbladian expm) used in oracles only",
-                          "second-order agreement of the one-gate Kraus identity with exp(local Lindbladian) is cited; measured by halving all strengths"],
+                          "second-order agreement of the one-gate Kraus identity with exp(local Lindbladian) is cited; measured by halving all strengths",
+                          "extension: numeric content of one dissipation operation (scipy expm, SVD split, QR/SVD centre shifts keep the state) — "
+                          "not modelled, checked by the dense oracle of kind `dissip` (1e-9) on every run; a scalar factor exp(0)=1 has no observable site"],
             assumptions=["order in which digital_tjm applies the gates of a circuit: Model.Layers (C02/C16), here the recorded order is the input",
-                         "two_site_tdvp applies the gate exactly up to Krylov tolerance (C18/C19)"],
+                         "two_site_tdvp applies the gate exactly up to Krylov tolerance (C18/C19)",
+                         "extension (kind `dpipe`): the gate order is no longer an input — the whole interleaved event list of the real digital_tjm "
+                         "(gates, dissipation operations, lotteries, normalisations, evaluations) is compared with Model.Dissipation.noisyDigitalTjm"],
             spec=lambda: [lc.margins()],
             budget_s={"quick": 95, "thorough": 1200, "search": 240}.get(_tier, 95))
